@@ -265,3 +265,26 @@ Example C10_nonvacuous :
       [ORetB true; ORetB true] ] /\
   strictly_accepted (judge minit sinit (snd (run init c10_example))) = true.
 Proof. vm_compute. split; reflexivity. Qed.
+
+(* The second kind of overlap (Model/StackX.v round_overlap): peers 2, 3, 1 subscribe in that order;
+   the notification round of a data change is held in its write to peer 2 while peer 3 is
+   disconnected: all three subscribers of the list the round took are written to (what goes to the
+   removed peer 3 itself is not prescribed, the harness reports it in canonical form), peer 3's
+   entry is removed with its event, and the next data change reaches peers 2 and 1 only. *)
+Definition c10_round_example : list xop :=
+  map Base [ AddLocalEntity [1%N]; AddLocalFeature [1%N] 1 RServer; AddFunction [1%N] 1 1 true true;
+             Connect 1; DiscoveryReply 1 (tree 1); Connect 2; DiscoveryReply 2 (tree 2); Connect 3; DiscoveryReply 3 (tree 3);
+             SubCall 2 21 false (scall 2); SubCall 3 31 false (scall 3); SubCall 1 11 false (scall 1) ] ++
+  [ During (SetData [1%N] 1 1 77) (Disconnect 3); Base (SetData [1%N] 1 1 78) ].
+Example C10_round_overlap_nonvacuous :
+  map snd (skipn 12 (snd (xrun init c10_round_example))) =
+    [ [ONotify 2 (a (Some 0%N) [1%N] 1) (a (Some 2%N) [1%N] 1) 1 77;
+       ONotify 3 (a (Some 0%N) [1%N] 1) (a (Some 3%N) [1%N] 1) 1 77;
+       ONotify 1 (a (Some 0%N) [1%N] 1) (a (Some 1%N) [1%N] 1) 1 77;
+       OEvent EvSub ChRemove 3 (Some [1%N]) (Some (a (Some 3%N) [1%N] 1)) (Some (a (Some 0%N) [1%N] 1));
+       OEvent EvDevice ChRemove 3 None None None];
+      [ONotify 2 (a (Some 0%N) [1%N] 1) (a (Some 2%N) [1%N] 1) 1 78;
+       ONotify 1 (a (Some 0%N) [1%N] 1) (a (Some 1%N) [1%N] 1) 1 78] ] /\
+  only_client (xjudge10 minit sinit (snd (xrun init c10_round_example))) = true /\
+  accepted (xjudge10 minit sinit (snd (xrun init c10_round_example))) = true.
+Proof. vm_compute. repeat split; reflexivity. Qed.
